@@ -57,6 +57,8 @@ func runC12(c *Ctx) {
 	r.Rule("R6-ticket-reuse", "Manager.Save mints a new ticket only when the request ticket cannot be decoded", 2)
 	r.Rule("R8-clear-expires-cookie", "Manager.Clear, which ends an unrefreshable session, expires the cookie on every path even when the store delete fails (shared with C11.R2)", 9)
 	r.Rule("R9-refresh-adopts-tokens", "every provider redeemRefreshToken stores access token, issue time, expiry and (when the response carries one) the refresh token on every success path", 3)
+	r.Rule("R10-age-exact", "Age() = Clock.Now() (truncated by at most 1s) - *CreatedAt, unrounded; needsRefresh = Age() > period", 2)
+	r.Rule("R11-validation-needs-200", "the token-validation helper behind ValidateSession answers true only for status 200 of an error-free request with a non-empty token (shared with C14.R7)", 1)
 	r.Rule("R7-lock-sentinels", "redis lock maps redislock sentinels to the session-lock sentinels the retry loop tests", 6)
 
 	rule := "R1-single-refresh-site"
@@ -174,38 +176,10 @@ func runC12(c *Ctx) {
 	c.checkLoaderClears("R5-loader-clears", a)
 	runManagerClearRule(c, "R8-clear-expires-cookie")
 	runC12R9(c, "R9-refresh-adopts-tokens")
+	runC12R10(c, "R10-age-exact")
+	runC14R7(c, "R11-validation-needs-200")
 
-	// ---- R6 ---------------------------------------------------------------------------------
-	rule = "R6-ticket-reuse"
-	msave := c.Fn(rule, "(*pkg/sessions/persistence.Manager).Save")
-	dtfr := c.Fn(rule, "pkg/sessions/persistence.decodeTicketFromRequest")
-	newTicket := c.Fn(rule, "pkg/sessions/persistence.newTicket")
-	saveSession := c.Fn(rule, "(*pkg/sessions/persistence.ticket).saveSession")
-	if msave != nil && dtfr != nil && newTicket != nil && saveSession != nil {
-		c.Walk(rule, msave, func(p *walk.Path) {
-			at := p.End()
-			for _, nt := range p.Find(walk.Static(newTicket), at) {
-				key := "new-ticket-only-on-decode-error|" + fnKey(msave)
-				if _, ok := Has(p, nt.Idx, Need{M: walk.Static(dtfr), Idx: 1, Out: NonNil}); ok {
-					c.ok(rule, key, nt.In, "newTicket only after decodeTicketFromRequest failed")
-				} else {
-					c.bad(rule, key, nt.In, "a new ticket is minted although the request's ticket may be valid: concurrent requests no longer share the refreshed session", p, nt.Idx)
-				}
-			}
-			for _, sv := range p.Find(walk.Static(saveSession), at) {
-				dt, ok := Has(p, sv.Idx, Need{M: walk.Static(dtfr), Idx: 1, Out: ErrNil})
-				if !ok {
-					continue
-				}
-				key := "saves-under-request-ticket|" + fnKey(msave)
-				if ResultIs(p, p.Arg(sv, 0), dt, 0) {
-					c.ok(rule, key, sv.In, "decodable request ticket is the one saved under")
-				} else {
-					c.bad(rule, key, sv.In, "the session is not saved under the request's (decodable) ticket", p, sv.Idx)
-				}
-			}
-		})
-	}
+	runTicketReuseRule(c, "R6-ticket-reuse")
 
 	// ---- R7 ---------------------------------------------------------------------------------
 	rule = "R7-lock-sentinels"
@@ -554,4 +528,139 @@ func runC12R9(c *Ctx, rule string) {
 	if n == 0 {
 		c.R.Unknown(rule, "adopts|none", "-", "no provider redeemRefreshToken found")
 	}
+}
+
+// runTicketReuseRule: Manager.Save mints a new ticket only when the request's ticket cannot be decoded
+// and otherwise saves under the request's ticket (C12.R6, also C11: a re-login overwrites the stored
+// session instead of orphaning it, so sign-out deletes everything the browser ever held).
+func runTicketReuseRule(c *Ctx, rule string) {
+	msave := c.Fn(rule, "(*pkg/sessions/persistence.Manager).Save")
+	dtfr := c.Fn(rule, "pkg/sessions/persistence.decodeTicketFromRequest")
+	newTicket := c.Fn(rule, "pkg/sessions/persistence.newTicket")
+	saveSession := c.Fn(rule, "(*pkg/sessions/persistence.ticket).saveSession")
+	if msave != nil && dtfr != nil && newTicket != nil && saveSession != nil {
+		c.Walk(rule, msave, func(p *walk.Path) {
+			at := p.End()
+			for _, nt := range p.Find(walk.Static(newTicket), at) {
+				key := "new-ticket-only-on-decode-error|" + fnKey(msave)
+				if _, ok := Has(p, nt.Idx, Need{M: walk.Static(dtfr), Idx: 1, Out: NonNil}); ok {
+					c.ok(rule, key, nt.In, "newTicket only after decodeTicketFromRequest failed")
+				} else {
+					c.bad(rule, key, nt.In, "a new ticket is minted although the request's ticket may be valid: concurrent requests no longer share the refreshed session", p, nt.Idx)
+				}
+			}
+			for _, sv := range p.Find(walk.Static(saveSession), at) {
+				dt, ok := Has(p, sv.Idx, Need{M: walk.Static(dtfr), Idx: 1, Out: ErrNil})
+				if !ok {
+					continue
+				}
+				key := "saves-under-request-ticket|" + fnKey(msave)
+				if ResultIs(p, p.Arg(sv, 0), dt, 0) {
+					c.ok(rule, key, sv.In, "decodable request ticket is the one saved under")
+				} else {
+					c.bad(rule, key, sv.In, "the session is not saved under the request's (decodable) ticket", p, sv.Idx)
+				}
+			}
+		})
+	}
+
+}
+
+// runC12R10: staleness is measured exactly. SessionState.Age returns (Clock.Now(), truncated by at most
+// one second) minus *CreatedAt, and that difference is not rounded or truncated afterwards; needsRefresh
+// compares it with the period by '>'. Rounding the age down by a coarser unit opens a window after the
+// refresh period in which a stale session is served without refresh or validation.
+func runC12R10(c *Ctx, rule string) {
+	age := c.Fn(rule, "(*pkg/apis/sessions.SessionState).Age")
+	needs := c.Fn(rule, "pkg/middleware.needsRefresh")
+	createdF := c.Field(rule, "pkg/apis/sessions.SessionState.CreatedAt")
+	if age == nil || needs == nil || createdF == nil {
+		return
+	}
+	c.Walk(rule, age, func(p *walk.Path) {
+		rv, ok := p.ReturnDV(0)
+		if !ok {
+			return
+		}
+		r := p.Resolve(rv)
+		if k, isConst := r.V.(*ssa.Const); isConst && k.Value != nil && k.Value.String() == "0" {
+			return // unset CreatedAt: age 0
+		}
+		key := "age-exact|" + fnKey(age)
+		call, ok := r.V.(*ssa.Call)
+		if !ok || !isTimeMethod(&call.Call, "Sub") {
+			c.bad(rule, key, p.Exit, "the session's age is not returned as the plain difference now.Sub(*CreatedAt): a rounded or truncated age lets a session older than the refresh period look younger", p, p.End())
+			return
+		}
+		// subtrahend: *s.CreatedAt
+		sub := p.Resolve(p.Op(call.Call.Args[1], r))
+		okCreated := false
+		if u, isLoad := sub.V.(*ssa.UnOp); isLoad && u.Op == token.MUL {
+			if base, isF := walk.FieldLoadBase(p.Resolve(p.Op(u.X, sub)).V, createdF); isF && base == ssa.Value(age.Params[0]) {
+				okCreated = true
+			}
+		}
+		// minuend: Clock.Now(), optionally .Truncate(d) with constant d <= 1s
+		min := p.Resolve(p.Op(call.Call.Args[0], r))
+		okNow := false
+		for depth := 0; depth < 3; depth++ {
+			mc, isCall := min.V.(*ssa.Call)
+			if !isCall {
+				break
+			}
+			if isTimeMethod(&mc.Call, "Truncate") || isTimeMethod(&mc.Call, "Round") {
+				d, isConst := ConstInt(mc.Call.Args[1])
+				if !isConst || d > 1_000_000_000 {
+					break
+				}
+				min = p.Resolve(p.Op(mc.Call.Args[0], min))
+				continue
+			}
+			if sc := mc.Call.StaticCallee(); sc != nil && sc.Name() == "Now" {
+				okNow = true
+			}
+			if mc.Call.IsInvoke() && mc.Call.Method.Name() == "Now" { // the injectable test clock
+				okNow = true
+			}
+			break
+		}
+		if okCreated && okNow {
+			c.ok(rule, key, p.Exit, "Clock.Now() (truncated by at most 1s) minus *CreatedAt")
+		} else {
+			c.bad(rule, key, p.Exit, sprintf("the session's age is not now-minus-CreatedAt with at most one second of truncation (from CreatedAt: %v, from Now within 1s: %v)", okCreated, okNow), p, p.End())
+		}
+	})
+	// needsRefresh: true only if period > 0 and Age() > period
+	c.Walk(rule, needs, func(p *walk.Path) {
+		rv, ok := p.ReturnDV(0)
+		if !ok {
+			return
+		}
+		if b, k := p.Truth(rv, p.End()); k && !b {
+			return
+		}
+		key := "compares-age|" + fnKey(needs)
+		okCmp := false
+		check := func(v ssa.Value, dv walk.DV) {
+			b, ok := v.(*ssa.BinOp)
+			if !ok || b.Op != token.GTR {
+				return
+			}
+			if ac, ok := p.Resolve(p.Op(b.X, dv)).V.(*ssa.Call); ok && ac.Call.StaticCallee() == age && p.Resolve(p.Op(b.Y, dv)).V == ssa.Value(needs.Params[0]) {
+				okCmp = true
+			}
+		}
+		r := p.Resolve(rv)
+		check(r.V, r)
+		for _, a := range p.Atoms(p.End()) {
+			if !a.IsNil && a.Val {
+				check(a.DV.V, a.DV)
+			}
+		}
+		if okCmp {
+			c.ok(rule, key, p.Exit, "session.Age() > refreshPeriod")
+		} else {
+			c.bad(rule, key, p.Exit, "needsRefresh can be true/false other than by session.Age() > refreshPeriod", p, p.End())
+		}
+	})
 }
